@@ -96,13 +96,14 @@ type bridgeHist struct {
 	group     *world.Group
 	bridgeReq goattypes.BridgeRequests
 	// observers
-	onDeliver    func(st world.SysTx, blk *world.Block)
-	afterBlock   func()
-	wd           *wdState
-	onHashes     func(start uint64, hashes [][]byte)
-	onBridgeReqs func(*goattypes.BridgeRequests)
-	extraLocking func(*blockOps)
-	evmCtr       int
+	onDeliver        func(st world.SysTx, blk *world.Block)
+	afterBlock       func()
+	wd               *wdState
+	onHashes         func(start uint64, hashes [][]byte)
+	onBridgeReqs     func(*goattypes.BridgeRequests)
+	extraLocking     func(*blockOps)
+	acceptedDeposits []*depTruth // credited by accepted batches, in order, since the last reset
+	evmCtr           int
 }
 
 func newBridgeHist(lh *lockHist) *bridgeHist {
@@ -346,6 +347,7 @@ func (b *bridgeHist) depositsOp(items []*bitcointypes.Deposit, headers []*bitcoi
 				truth.CreditH = b.lh.blk.Height
 				p := b.params()
 				truth.TaxRate, truth.TaxCap, truth.MinDeposit = p.DepositTaxRate, p.MaxDepositTax, p.MinDepositAmount
+				b.acceptedDeposits = append(b.acceptedDeposits, truth)
 			}
 			c.Count("deposits_credited", 1)
 		}
